@@ -1746,14 +1746,19 @@ fn check_field_offsets(file: &File, scope: &Scope, schema: &Schema) -> Result<()
 
         for field in decl.fields() {
             match &field.desc {
+                // Scalar and enum fields are bit-fields, unless they are optional:
+                // an optional field must start on an octet boundary.
                 FieldDesc::Typedef { type_id, .. }
-                    if matches!(
-                        scope.typedef.get(type_id),
-                        Some(Decl { desc: DeclDesc::Enum { .. }, .. })
-                    ) => {}
+                    if field.cond.is_none()
+                        && matches!(
+                            scope.typedef.get(type_id),
+                            Some(Decl { desc: DeclDesc::Enum { .. }, .. })
+                        ) => {}
+                FieldDesc::Scalar { .. } if field.cond.is_none() => (),
                 FieldDesc::Payload { .. }
                 | FieldDesc::Body
                 | FieldDesc::Typedef { .. }
+                | FieldDesc::Scalar { .. }
                 | FieldDesc::Array { .. }
                 | FieldDesc::Padding { .. }
                 | FieldDesc::Checksum { .. } => {
@@ -1776,8 +1781,7 @@ fn check_field_offsets(file: &File, scope: &Scope, schema: &Schema) -> Result<()
                 | FieldDesc::FixedScalar { .. }
                 | FieldDesc::Group { .. }
                 | FieldDesc::Flag { .. }
-                | FieldDesc::Reserved { .. }
-                | FieldDesc::Scalar { .. } => (),
+                | FieldDesc::Reserved { .. } => (),
             }
             offset = match schema.field_size[&field.key] {
                 Size::Static(size) => offset + size,
@@ -1793,12 +1797,32 @@ fn check_field_offsets(file: &File, scope: &Scope, schema: &Schema) -> Result<()
 ///      - struct size is not an integral number of octets
 ///      - packet size is not an integral number of octets
 ///      - scalar array element size is not an integral number of octets
-fn check_decl_sizes(file: &File, schema: &Schema) -> Result<(), Diagnostics> {
+fn check_decl_sizes(file: &File, scope: &Scope, schema: &Schema) -> Result<(), Diagnostics> {
     let mut diagnostics: Diagnostics = Default::default();
     for decl in &file.declarations {
         let mut static_size = 0;
 
         for field in decl.fields() {
+            // The size of an optional field must be an integral number of octets.
+            let optional_width = match &field.desc {
+                _ if field.cond.is_none() => None,
+                FieldDesc::Scalar { width, .. } => Some(*width),
+                FieldDesc::Typedef { type_id, .. } => match scope.typedef.get(type_id) {
+                    Some(Decl { desc: DeclDesc::Enum { width, .. }, .. }) => Some(*width),
+                    _ => None,
+                },
+                _ => None,
+            };
+            if optional_width.is_some_and(|width| width % 8 != 0) {
+                diagnostics.push(
+                    Diagnostic::error()
+                        .with_code(ErrorCode::InvalidFieldSize)
+                        .with_message(
+                            "optional field size is not an integral number of octets".to_owned(),
+                        )
+                        .with_labels(vec![field.loc.primary()]),
+                )
+            }
             match &field.desc {
                 FieldDesc::Array { width: Some(width), .. } if width % 8 != 0 => diagnostics.push(
                     Diagnostic::error()
@@ -1981,7 +2005,7 @@ pub fn analyze(file: &File) -> Result<File, Diagnostics> {
     check_decl_constraints(&file, &scope)?;
     let schema = Schema::new(&file);
     check_field_offsets(&file, &scope, &schema)?;
-    check_decl_sizes(&file, &schema)?;
+    check_decl_sizes(&file, &scope, &schema)?;
     Ok(file)
 }
 
